@@ -292,6 +292,7 @@ def run(rep, tier, seed, only=None):
     rep.bounds = {"circuits": "feature + seeded <=4 inputs/<=8 gates/<=2 blocks", "rename/remove": "every gate", "replace_inputs": "3 random input partitions each",
                   "replace_subcircuit": "random cut-bounded cones; replacements: relabelled copy, cleanup(copy), into_bench(copy)"}
     rep.outside = ["replacements obtained by exact synthesis (covered in C06/C04 end-to-end)", "non-equivalent replacements (no claim)"]
+    rep.bounds['argument shapes'] = 'replace_inputs with the circuit own inputs list; replacement gate labels clashing with host gates; an undeclared shared gate re-created under its own label'
     rep.rule = "program = (circuit, rewrite call); function preservation/specialisation decided by z3 over all inputs"
     rep.explanation = "translation validation per rewrite"
     canary(rep)
